@@ -38,7 +38,7 @@ CASES = {"quick": 500, "thorough": 20000}
 RULE = ("cases: retry = RetryPolicy.Wrap (+ breaker wrapper closed / forced open) around a scripted handler "
         "(success at attempt s, all fail, panic; cancellation injected inside attempt k; random|exponential, factor k/8, waits 1ns..5ms, "
         "40-100ms in front of a cancellation, 1ns with factor<1/2 for the zero-wait select race, maxAttempts 0); "
-        "pool = Proxy with one pool (retry, timeout 60-80ms, breaker, failureCodes) serving 1-5 requests with a per-attempt scripted "
+        "pool = Proxy with one pool (retry, timeout 60-80ms, breaker with slowCallDurationThreshold 1us..5ms or default - window totals read after EVERY request, failureCodes) serving 1-5 requests with a per-attempt scripted "
         "transport (status / network error / block until context done / panic / header in time then body breaks, stalls past the deadline or "
         "exceeds serverMaxBodySize; stream bodies of declared and unknown length consumed by every attempt; client cancellation); "
         "non-trivial = validated policy; classes (retry) add: >1 attempt(+1) success after failure(+2) cancel(+4) exhausted(+8) breaker(+16) "
@@ -101,6 +101,7 @@ def encode(c):
                           q_cancel=Z(rq["cancel"]), q_clen=Z(rq.get("clen", 0)),
                           q_calls=Z(ou["calls"]), q_res=Z(ou["res"]), q_status=Z(ou["status"]),
                           q_from=Z(ou.get("from", -1)), q_plen=Z(ou.get("plen", 0)), q_bodies=Z(ou.get("bodies", 0)),
+                          q_cbt=Z(ou.get("cbt", -1)), q_cbf=Z(ou.get("cbf", -1)),
                           q_gaps=L([Z(x) for x in ou.get("gaps") or []])))
         return Rec(k_retry=B(i["retry"]), k_pol=_pol(i), k_timeout=Z(i["timeout"]), k_cb=B(i["cb"]),
                    k_fcodes=L([Z(x) for x in i.get("fcodes") or []]), k_reqs=L(qs),
@@ -130,6 +131,7 @@ def distribution(cases):
                 d["attempts_after_cancel_in_race"] += o["calls"] > i["cancel"] + 1
         else:
             d["breaker_cases"] += bool(i["cb"])
+            d["low_slow_threshold_cases"] = d.get("low_slow_threshold_cases", 0) + (bool(i["cb"]) and i.get("slow", 0) > 0)
             for rq, ou in zip(i.get("reqs") or [], o.get("outs") or []):
                 k = str(ou["calls"])
                 d["attempts_hist"][k] = d["attempts_hist"].get(k, 0) + 1
